@@ -63,12 +63,16 @@ type streamOpts struct {
 	startSelect bool // the stream starts with a SELECT (fresh stream after a full sync)
 	dbs         []int
 	noMulti     bool
+	startInTx   bool // the stream starts inside a source transaction (resume offset fell into a MULTI block)
+	selectInTx  bool // SELECT may occur inside a source MULTI block
+	minCmds     int
+	noSelect    bool // no SELECT after the first command
 }
 
 func drawStream(t *rapid.T, o streamOpts) *incrStream {
 	st := &incrStream{}
 	var buf bytes.Buffer
-	inTx := false
+	inTx := o.startInTx
 	add := func(argv [][]byte) {
 		pre := rapid.SampledFrom([]int{0, 0, 0, 0, 1, 2}).Draw(t, "ka")
 		buf.Write(bytes.Repeat([]byte("\n"), pre))
@@ -95,10 +99,10 @@ func drawStream(t *rapid.T, o streamOpts) *incrStream {
 	if o.startSelect {
 		add(bb("select", strconv.Itoa(dbgen.Draw(t, "db0"))))
 	}
-	n := rapid.IntRange(0, o.maxCmds).Draw(t, "ncmds")
+	n := rapid.IntRange(o.minCmds, o.maxCmds).Draw(t, "ncmds")
 	for i := 0; i < n; i++ {
 		switch k := rapid.IntRange(0, 19).Draw(t, "kind"); {
-		case k <= 1 && !inTx:
+		case k <= 1 && (!inTx || o.selectInTx) && !o.noSelect:
 			add(bb("select", strconv.Itoa(dbgen.Draw(t, "db"))))
 		case k == 2:
 			add(bb("ping"))
@@ -192,6 +196,7 @@ type applied struct {
 	name string
 	args [][]byte
 	end  int64 // source stream position after the source command (0 for observed commands)
+	at   time.Time // when the target executed it (observed commands)
 }
 
 func (a applied) String() string {
@@ -269,6 +274,7 @@ type incrInst struct {
 	gidCh    chan int64
 	ckName   string
 	lastByte time.Time
+	sentAt   []sentMark // stream position -> time it had been handed to the syncer
 	mu       sync.Mutex
 	stopped  bool
 }
@@ -300,13 +306,36 @@ func startIncr(srv *mredis.Server, resumeEnabled bool, runid string, startDB int
 	return in
 }
 
+type sentMark struct {
+	upto int
+	at   time.Time
+}
+
+// deliveredAt returns when the byte at stream position pos-1 was handed over.
+func (in *incrInst) deliveredAt(pos int64) time.Time {
+	in.mu.Lock()
+	defer in.mu.Unlock()
+	for _, m := range in.sentAt {
+		if int64(m.upto) >= pos {
+			return m.at
+		}
+	}
+	return time.Time{}
+}
+
 // feed delivers the stream in fragments with pauses.
 func (in *incrInst) feed(data []byte, splits []int, delays []time.Duration) {
 	prev := 0
+	mark := func(upto int) {
+		in.mu.Lock()
+		in.sentAt = append(in.sentAt, sentMark{upto, time.Now()})
+		in.mu.Unlock()
+	}
 	for i, p := range splits {
 		if p > prev && p <= len(data) {
 			in.pw.Write(data[prev:p])
 			prev = p
+			mark(p)
 		}
 		if i < len(delays) && delays[i] > 0 {
 			time.Sleep(delays[i])
@@ -315,6 +344,7 @@ func (in *incrInst) feed(data []byte, splits []int, delays []time.Duration) {
 	if prev < len(data) {
 		in.pw.Write(data[prev:])
 	}
+	mark(len(data))
 	in.mu.Lock()
 	in.lastByte = time.Now()
 	in.mu.Unlock()
@@ -338,7 +368,7 @@ func (in *incrInst) observed() []applied {
 		if in.isOwn(c) {
 			continue
 		}
-		out = append(out, applied{db: c.DB, name: c.Name, args: c.Argv[1:]})
+		out = append(out, applied{db: c.DB, name: c.Name, args: c.Argv[1:], at: c.At})
 	}
 	return out
 }
